@@ -12,6 +12,7 @@ import (
 	"os"
 	"sort"
 	"sync"
+	"sync/atomic"
 	"time"
 
 	"github.com/libp2p/go-libp2p/core/peer"
@@ -32,6 +33,7 @@ type vEvt struct {
 // vTrace records every RawTracer callback (they run in the event loop, or in a
 // validation goroutine) with virtual timestamps.
 type vTrace struct {
+	hook atomic.Pointer[func(kind string)] // called first in every callback (i.e. inside the event loop or a validation goroutine)
 	mu   sync.Mutex
 	evts []vEvt
 	idf  func(*Message) string
@@ -46,6 +48,9 @@ func (t *vTrace) bornOr() time.Time {
 }
 
 func (t *vTrace) add(e vEvt) {
+	if h := t.hook.Load(); h != nil {
+		(*h)(e.Kind)
+	}
 	e.T = time.Now()
 	t.mu.Lock()
 	t.evts = append(t.evts, e)
